@@ -303,3 +303,47 @@ func counterOffset(lf *loopForm, v ssa.Value) (int64, bool) {
 	}
 	return 0, false
 }
+
+// firstConst: the first value of the loop's element counter when it is a
+// constant.
+func (lf *loopForm) firstConst() (int64, bool) {
+	if lf == nil || lf.phi == nil {
+		return 0, false
+	}
+	k, ok := ir.ConstInt(lf.init)
+	if !ok {
+		return 0, false
+	}
+	if lf.pre {
+		k += lf.step
+	}
+	return k, true
+}
+
+// skippedPrefix: iterations whose element counter is below the returned value
+// never reach block at (a `if i < k { continue }` style guard inside the loop:
+// at is dominated by the edge on which counter >= k holds).
+func skippedPrefix(fn *ssa.Function, lf *loopForm, at *ssa.BasicBlock) (int64, bool) {
+	if lf == nil || lf.phi == nil {
+		return 0, false
+	}
+	isCounter := func(v ssa.Value) bool { d, ok := counterOffset(lf, v); return ok && d == 0 }
+	best, found := int64(0), false
+	in := ir.LoopBlocks(lf.h)
+	for k := int64(-2); k <= 8; k++ {
+		kk := k
+		g, _ := relGuard("counter >= k", fn, isCounter, constIntIs(kk), token.GEQ)
+		for _, s := range g.sites {
+			if !in[s.br.If.Block()] {
+				continue
+			}
+			e := s.br.Edge()
+			if e.From.Succs[e.Succ] == at || ir.EdgeDominates(fn, e, at) {
+				if !found || kk > best {
+					best, found = kk, true
+				}
+			}
+		}
+	}
+	return best, found
+}
